@@ -49,3 +49,8 @@ claim("C19", "finite-set evaluation of the decoder's IR over all 16 (last_state,
       "Decides the transition table (+1 clockwise, -1 anticlockwise, 0 otherwise, for every pair, hence from every decoder state), the state update and the latch (count := floor(internal_count/4) exactly at the detent state, after the update), and rotenc_count. These determine the internal position and rotenc_count for every signal sequence.",
       "The rotenc_count14 clause ('at all times the same latched position modulo 2^14') is NOT decided by this check: it relates a live counter to a latched byte through carries and needs reachable-state reasoning (by inspection it fails next to multiples of 256 clicks, DESIGN.md O1). Trusted: clang 14 front end, ir2json, path enumerator, concrete expression evaluator.",
       "DESIGN.md section 2 C19")
+claim("C18", "edge-sensitive typestate dataflow over the CFG (string-cursor NUL-safety) + finite-set evaluation of the digit maps + bounded-unrolling structural check of the dump loops",
+      "other",
+      "Decides for every NUL-terminated string: every byte load, scan start and handed-back cursor of hex_get_byte lies inside the string on every path; -1 is returned only with *p == NULL and success stores the cursor just past the pair and returns 16*nibble|nibble (values 0..255); hexchar/nibble are the stated maps on their whole domains and invert each other (so parse(dump(b)) = b per byte); the dumper prints high then low nibble of consecutive bytes, at most 16 pairs per line with a final newline, returns the size, and has no early return with bytes remaining on any path with at most two iterations per loop.",
+      "Termination after finitely many calls is not decided beyond 'each call stores an advanced cursor or NULL'. The dumper's 'nothing remains' clause is bounded (two iterations per loop), not inductive. Assumes glibc ctype tables give NUL no class bit. Trusted: clang 14 front end, ir2json, the dataflow's evidence decoders.",
+      "DESIGN.md section 2 C18")
